@@ -180,6 +180,35 @@ def r5(run):
         return
     uses = [c for c in b.calls() if c.bb in b.live_blocks() and c.bb != w[0] and c.fn in (C.INSERT_FRAME, C.BROADCAST_SEND, C.HASHSET_INSERT, "xs::store::idx_topic_key_from_frame")]
     run.floor("uses of the frame in append after id assignment", len(uses), 3, b.sp)
+
+    def value_unused(c):
+        """`idx_topic_key_from_frame(&frame)?;` as a pure validity check: only the error of the call is looked at, the key is dropped"""
+        if c.fn != "xs::store::idx_topic_key_from_frame" or c.dest["p"]:
+            return False
+        d = c.dest["l"]
+        for bi2, blk in enumerate(b.blocks):
+            if blk["cleanup"] or bi2 not in b.live_blocks():
+                continue
+            t = blk["term"]
+            if t["k"] == "call" and any((a.get("move") or a.get("copy") or {}).get("l") == d for a in t["args"]):
+                if not t["fn"].endswith("Try::branch"):
+                    return False
+                # the Continue payload of that branch must not be read
+                pr = t["dest"]["l"]
+                for blk2 in b.blocks:
+                    if blk2["cleanup"]:
+                        continue
+                    for st2 in blk2["stmts"]:
+                        if st2["k"] == "assign" and "use" in st2["rv"]:
+                            pl2 = st2["rv"]["use"].get("move") or st2["rv"]["use"].get("copy")
+                            if pl2 and pl2["l"] == pr and pl2["p"] and isinstance(pl2["p"][0], dict) and pl2["p"][0].get("dc") == "Continue":
+                                # read into a temp: fine only if that temp is never used by a call
+                                tmp = st2["lhs"]["l"]
+                                for blk3 in b.blocks:
+                                    if not blk3["cleanup"] and blk3["term"]["k"] == "call" and any((a.get("move") or a.get("copy") or {}).get("l") == tmp for a in blk3["term"]["args"]):
+                                        return False
+        return True
+    uses = [c for c in uses if not value_unused(c)]
     for c in uses:
         run.ob("%s|id-before|%s" % (C.APPEND, c.fn.split("::")[-1]), q.dominated(b, c.bb, via_blocks=[w[0]]), c.sp, "frame.id is assigned before %s" % c.fn.split("::")[-1],
                reason="use-before-id")
